@@ -130,6 +130,7 @@ func checkDefs() map[string]CheckDef {
 			each("H_premature", l(41, 42, 43), tplMsgHdr, l(4)),
 			each("H_premature", l(41, 43), l(13), l(7)),
 			each("H_premature", l(41), tplBoundary, l(4)),
+			each("H_premature", l(40, 42), l(7, 22, 63), l(3)), each("H_premature", l(40), l(37), l(2)),
 			each("H_premature", l(41), l(37, 38, 39), l(2)), each("H_premature", l(41), tplInterior, l(4)), each("H_premature", l(12), l(40, 41, 42, 43), l(2))),
 		cat(each("H_premature", idsLoop, l(0), l(14)),
 			each("H_premature", idsNameAddr, l(0), l(11)),
@@ -150,6 +151,7 @@ func checkDefs() map[string]CheckDef {
 			each("H_C04_msg", l(13), l(5), l(-1, 0), l(-1, 0)),
 			each("H_C04_msg", tplBoundary, l(3), l(-1, 0), l(0)), each("H_C04_msg", tplInterior, l(3), l(-1), l(0)),
 			each("H_C04_msg", l(0), l(10), l(-1), l(-1)),
+			each("H_C04_msg_at", l(7, 21, 22, 37, 63), l(2), l(0, 1, 5)), each("H_C04_msg_at", l(1, 3, 9, 13), l(3), l(3)),
 			each("H_C04_lookup", seq(0, 6)), each("H_C04_lookup", l(9, 12, 14, 19, 20)),
 			each("H_C04_enums"),
 			each("H_C04_api", l(0), l(15)), each("H_C04_api", l(1, 2, 3, 4, 5, 7), l(6)), each("H_C04_api", l(6), l(8)), each("H_C04_api", l(8), l(3)),
@@ -169,7 +171,7 @@ func checkDefs() map[string]CheckDef {
 			each("H_C05", l(13), l(7), l(0, 1)),
 			each("H_C05", l(14, 16), l(5), l(0)),
 			each("H_C05", tplBoundary, l(4), l(0)), each("H_C05", tplInterior, l(4), l(0)),
-			each("H_C05_chunk", l(1, 3, 5, 11, 12, 29, 32, 34, 35), l(3))),
+			each("H_C05_chunk", l(1, 3, 5, 11, 12, 29, 32, 34, 35, 44, 46, 49, 52), l(3))),
 		cat(each("H_C05", l(1, 2, 3, 4, 5, 6, 7, 8, 9, 10, 11, 12), l(6), l(0, 1, 2)),
 			each("H_C05", l(13), l(9), l(0))),
 		"ParseSIPMsg one-shot on templates with a symbolic window of 4 (6) bytes in each header kind, repeated Contact headers (template 11), three-header message (12), fully symbolic 7 (9)-byte header block: containment, first-line order, header order / own-line / trimming, nesting of From/To/CSeq/Call-ID/Contact/PAI sub-fields, body and raw-message extents",
@@ -178,7 +180,7 @@ func checkDefs() map[string]CheckDef {
 	add("C06",
 		cat(each("H_C06_clen", seq(1, 3), seq(0, 3)), each("H_C06_clen", l(7, 8, 9, 10), l(0, 1)),
 			each("H_C06_noclen", seq(0, 3)),
-			each("H_C06_pipe", l(2, 3), l(2), l(0, 2))),
+			each("H_C06_pipe", l(2, 3), l(2), l(0, 2)), each("H_C06_pipe3", l(2, 3), l(0, 1, 300))),
 		cat(each("H_C06_clen", seq(1, 3), seq(4, 8)), each("H_C06_clen", l(4, 5, 6, 11, 12), l(0, 2)),
 			each("H_C06_pipe", l(4), l(3), l(0, 1, 3))),
 		"skeleton request with Content-Length of 1-10 (12) symbolic digits and 0-3 (8) body bytes, all 8 flag combinations symbolic; no-Content-Length variants; two pipelined messages with symbolic header-value windows",
@@ -197,11 +199,11 @@ func checkDefs() map[string]CheckDef {
 		"lines longer than the bound")
 
 	add("C09",
-		cat(each("H_C09_shape", l(1, 2, 8, 13), l(0), l(0, 1, 2, 3, 4, 5, 7, 8), l(2)),
+		cat(each("H_C09_shape", l(1, 2, 8, 13), l(0), l(0, 1, 2, 3, 4, 5, 7, 8, 9, 10, 11), l(2)),
 			each("H_C09_shape", l(8), l(0, 1), l(6), l(0)),
 			each("H_C09_shape", l(1, 2, 8, 13), l(1), l(0, 1, 3, 5), l(2)),
 			each("H_C09_list", l(0), l(0, 1, 2, 3), l(1)), each("H_C09_list", l(1), l(0), l(1)),
-			each("H_C09_hdrs", l(1, 2))),
+			each("H_C09_hdrs", l(1, 2)), each("H_C09_minmax", l(1, 2, 3))),
 		cat(each("H_C09_shape", l(1, 2, 8, 13), l(0), l(0, 1, 2, 3, 4, 5, 7, 8), l(4)),
 			each("H_C09_list", l(0), l(0, 2), l(3)), each("H_C09_hdrs", l(5))),
 		"From/To/Contact/PAI values built from 9 shapes (angle / quoted name / token name / bare URI / expires+q / lr / star / quoted tag / two-token name) with class-constrained symbolic components of 2 (4) bytes and symbolic optional LWS (none, SP, HT, fold) at the legal places, directly and through ParseHdrLine; 3-value lists with commas inside quotes and <>; two Contact headers + Expires through ParseHeaders",
@@ -248,7 +250,9 @@ func checkDefs() map[string]CheckDef {
 			each("H_C13_msg", l(32, 34, 35), l(3), l(0, 1), l(0, 1), l(0, 1)),
 			each("H_C13_msg", l(44, 45, 52, 53, 55), l(3), l(0, 1), l(0, 1), l(0)),
 			each("H_C13_msg", l(16), l(4), l(0, 1, 2), l(0, 1), l(0)),
-			each("H_C13_params", l(6), l(0, 1, 2)), each("H_C13_hdrs", l(6), l(0, 1, 2))),
+			each("H_C13_params", l(6), l(0, 1, 2)), each("H_C13_hdrs", l(6), l(0, 1, 2)),
+			each("H_C13_params_chunk", l(64, 66), l(3), l(0, 1, 2)), each("H_C13_params_chunk", l(0), l(6), l(0, 1)),
+			each("H_C13_hdrs_chunk", l(65), l(3), l(0, 1, 2)), each("H_C13_hdrs_chunk", l(0), l(6), l(0, 1))),
 		cat(each("H_C13_msg", l(1, 3, 4, 9, 11, 12), l(5), l(0, 1, 2), l(0, 1, 2), l(0)),
 			each("H_C13_params", l(8), l(0, 1, 2, 3)), each("H_C13_hdrs", l(8), l(0, 1, 2, 3))),
 		"the same symbolic message (templates with 3 (5)-byte windows, multi-header and multi-contact) parsed into arrays of capacity (hcap, ccap) in {none,0,1,2}^2 and into ample arrays, one-shot and with one symbolic cut; URI parameter / header lists of 6 (8) symbolic bytes with capacities 0..3 vs 8",
@@ -287,8 +291,8 @@ func checkDefs() map[string]CheckDef {
 
 	add("C19",
 		cat(each("H_C19_insert", l(0, 1), seq(0, 6), l(2)), each("H_C19_insert", l(2), l(1), l(1)), each("H_C19_insert_rot", l(0, 1), l(0, 3, 6), l(2), seq(1, 5)), each("H_C19_cap", seq(0, 7), l(2)),
-			each("H_C19_cap", l(4, 12), l(4)), each("H_C19_chunk", l(2)), each("H_C19_strsig", seq(0, 4)), each("H_C19_string", seq(0, 8))),
-		cat(each("H_C19_insert", l(0, 1), seq(0, 6), l(4)), each("H_C19_strsig", l(5)), each("H_C19_cap", l(2, 5), l(6))),
+			each("H_C19_cap", l(4, 12), l(4)), each("H_C19_chunk", l(2)), each("H_C19_via", l(1, 2, 3)), each("H_C19_strsig", seq(0, 4)), each("H_C19_string", seq(0, 8)), each("H_C19_state", l(1, 2), l(1, 2, 7))),
+		cat(each("H_C19_insert", l(0, 1), seq(0, 6), l(4)), each("H_C19_strsig", l(5)), each("H_C19_cap", l(2, 5), l(6)), each("H_C19_state", l(3), l(2))),
 		"requests built from a 6-header skeleton: a header with symbolic value inserted at every position + a repeated From appended (signature unchanged); replies; a header with a symbolic 2-4 byte name and capacities 0..7,12 (same signature or ErrHdrTrunc); every single cut; string signatures on 0-4 (5) symbolic bytes; String() for every documented-shape signature",
 		"header sets other than the skeleton; more than 8 stored headers")
 
